@@ -94,7 +94,7 @@ def main(argv=None):
     ap.add_argument("--replay-dir", default="/verif/replays")
     ap.add_argument("--scratch", default="")
     ap.add_argument("--batch", type=int, default=0)
-    ap.add_argument("--run-budget", type=float, default=8.0)
+    ap.add_argument("--run-budget", type=float, default=25.0)
     ap.add_argument("--no-shrink", action="store_true")
     ap.add_argument("--dump-digests", action="store_true")
     ap.add_argument("--emit-cases", action="store_true")
